@@ -22,6 +22,7 @@ REQUIRED = [
     "fact_comparisons_exact", "fact_exists_key", "fact_background_jobs", "fact_wiring", "fact_store_guards_credential_id",
     # deepening round 3 (Props/C16R3.lean): client loop guards, seed discipline
     "fact_update_loop_guards", "fact_add_arguments", "fact_seed_draw",
+    "seeds_bounded", "reset_draws_unseen_seed", "reset_noticed_by_client",
     "client_loop_never_panics", "client_refuses_malformed", "client_refuses_malformed_after_held",
     # deepening round 2026-09-28: node layer (Props/C16Node.lean)
     "fact_status_table", "fact_verify_returns", "fact_routing_order", "fact_cycle_detected", "fact_load_definitions",
@@ -527,6 +528,7 @@ def run(ctx):
     accepted = {}          # id -> (op index, vp) of accepted registrations in this history
     sub_hist = {}          # subject -> list of (exp, id) of accepted registrations, in order
     resets = 0
+    seeds_seen, n_seed_draws = set(), 0
     wipes = 0              # times the client's seed changed from one list to another (wipeOnSeedChange fired)
     n_checked_conv = 0
     n_restart = 0
@@ -572,6 +574,7 @@ def run(ctx):
             prev_side, noise_ids = None, set()
             inflight, interleaved = 0, False
             handed_out, versions = {}, {}
+            seeds_seen = set()
             continue
         if kind == "get":
             classes["get"] += 1
@@ -605,6 +608,12 @@ def run(ctx):
         S, C = st["S"], st["C"]
         pS = prev["S"] if prev else {"seed": "-", "ts": 0, "rows": []}
         ckeys = {(r["subject"], r["id"]): r for r in C["rows"]}
+        # round 3 (clause "starting over when the server's seed changes"): a list that gets a seed gets one no list had before
+        if S["seed"] != "-" and pS["seed"] != S["seed"]:
+            if S["seed"] in seeds_seen:
+                report("C16:seed-reused", f"the server list got the seed {S['seed']} which an earlier list of this history already had: a client cannot tell the lists apart", i)
+            seeds_seen.add(S["seed"])
+            n_seed_draws += 1
         if prev and prev["C"]["seed"] not in ("-", C["seed"]):
             wipes += 1
             if inflight > 0:
@@ -798,5 +807,5 @@ def run(ctx):
         ctx.notes.append("oracle hits explained by open known findings: " + "; ".join(f"{k} x{v}" for k, v in oracle_known.items()))
     ctx.cov["input_distribution"] = {"op_classes": dict(classes.most_common()), "results": dict(results.most_common()),
                                      "histories": sum(1 for o in ops if o.get("op") == "init"), "convergence_checks": n_checked_conv, "seed_change_restarts": n_restart, "side_observations": n_side,
-                                     "forged_by_defective_server": dict(n_forged)}
+                                     "forged_by_defective_server": dict(n_forged), "seed_draws_checked": n_seed_draws}
     ctx.cov["samples"] = [ops_txt[1][:300] if len(ops_txt) > 1 else "", impl[-1][:300] if impl else ""]
